@@ -84,6 +84,9 @@ F13     == MkT(<<"o1">>, S3, <<<<0, 2, 9>>>>, MdRows(<< <<L1("taxonomy", <<"q">>
 F31     == MkT(O3, <<"s1">>, <<<<4>>, <<0>>, <<-8>>>>, NoMd, MdRows(<< <<S1("k1", "x")>> >>), "", "tid2")
 F33dense == MkT(O3, S3, <<<<1, 2, 3>>, <<4, 5, 6>>, <<7, 8, 9>>>>, OMD3, SMD3, "Function table", "")
 F22zero == MkT(O2, S2, <<<<0, 0>>, <<0, 0>>>>, NoMd, NoMd, "", "")
+\* only some observations carry the exported category
+F33part == MkT(O3, S3, <<<<1, 0, 2>>, <<0, 3, 4>>, <<5, 6, 0>>>>,
+               MdRows(<< <<L1("taxonomy", <<"p", "q">>)>>, <<S1("k1", "x")>>, <<L1("taxonomy", <<"q">>)>> >>), NoMd, "", "")
 F24frac == [MkT(O2, <<"s1", "s2", "s3", "s4">>, <<<<1, 0, 0, 2>>, <<0, 3, 0, 0>>>>, OMDtax, NoMd, "Ortholog table", "")
             EXCEPT !.mat = <<<<<<1, 2>>, Zero, Zero, <<-3, 4>>>>, <<Zero, <<5, 8>>, Zero, Zero>>>>]
 =============================================================================
